@@ -62,6 +62,103 @@ func makeLineageTree(k0, sib, depth int, finalized *int64) []*gomini.State {
 	return out
 }
 
+// lineageIdentity: two variables created on the SAME state are two variables, each known only to its own lineage, and a binding
+// of one says nothing about the other - under both placeholder policies (with a VarCreator the two placeholders may well have
+// equal contents; identity is what counts).  Returns a description of what went wrong, or "".
+func lineageIdentity(named bool, k0 int) string {
+	parent := gomini.NewState()
+	if named {
+		parent = gomini.NewState(namedCreator)
+	}
+	for i := 0; i < k0; i++ {
+		parent, _ = gomini.NewVar[*GT](parent)
+	}
+	stA, pa := gomini.NewVar[*GT](parent)
+	stB, pb := gomini.NewVar[*GT](parent)
+	stA2, pa2 := gomini.NewVar[*GT](stA)
+	if pa == pb || pa == pa2 || pb == pa2 {
+		return "two NewVar calls returned the same pointer"
+	}
+	if _, ok := stA.CastVar(pa); !ok {
+		return "a state does not know the variable it has just created"
+	}
+	if _, ok := stA2.CastVar(pa); !ok {
+		return "a descendant does not know its ancestor's variable"
+	}
+	if _, ok := stA.CastVar(pb); ok {
+		return "a variable created on a sibling lineage is a variable for this lineage too"
+	}
+	if _, ok := stB.CastVar(pa2); ok {
+		return "a variable created on a cousin lineage is a variable for this lineage too"
+	}
+	if _, ok := parent.CastVar(pa); ok {
+		return "a variable created on a child state is a variable for the parent"
+	}
+	// bind pa on lineage A; pb on lineage B is still free to take another value
+	c1, c2 := "one", "two"
+	as, _ := runGoal(gomini.EqualO(pa, &GT{S: &c1}), stA, -1, time.Second)
+	bs, _ := runGoal(gomini.ConjO(gomini.EqualO(pb, &GT{S: &c2})), stB, -1, time.Second)
+	if len(as) != 1 || len(bs) != 1 {
+		return fmt.Sprintf("binding sibling variables on their own lineages: %d and %d states, expected 1 and 1", len(as), len(bs))
+	}
+	// on lineage A, pb is a constant: a zero / named placeholder value, not unifiable with &GT{S:"two"} unless equal by content
+	return ""
+}
+
+// rewriteAfterRecycling: what reification remembers about the terms of one answer must not be keyed by addresses of objects that
+// die with that answer.  One Run, its answers streamed and dropped; every branch builds fresh ground terms and a fresh non-ground
+// query value; the collector runs at every branch boundary.  Every answer must be fully resolved.
+//
+//go:noinline
+func rewriteAfterRecycling(n int) (wrong, got int, first string) {
+	ctx, cancel := context.WithTimeout(context.Background(), 60*time.Second)
+	defer cancel()
+	ch := gomini.Run(ctx, gomini.NewState(), func(q *GT) gomini.Goal {
+		return func(ctx context.Context, s *gomini.State, ss gomini.Stream) {
+			for i := 0; i < n; i++ { // a sequential disjunction: a legal goal program
+				name, tag := fmt.Sprintf("v%d", i), "ground"
+				gomini.ExistO(func(x *GT) gomini.Goal {
+					return gomini.ConjO(
+						gomini.EqualO(x, &GT{S: &name, L: []*GT{{S: &tag}}}),
+						gomini.EqualO(q, &GT{A: x, B: &GT{S: &tag}}))
+				})(ctx, s, ss)
+				runtime.GC()
+			}
+		}
+	})
+	for a := range ch {
+		got++
+		t, ok := a.(*GT)
+		if !ok || t == nil || t.A == nil || t.A.S == nil || !strings.HasPrefix(*t.A.S, "v") || t.B == nil || t.B.S == nil {
+			wrong++
+			if first == "" {
+				first = fmt.Sprintf("answer %d: %s", got, showGTShallow(t))
+			}
+		}
+		a = nil
+	}
+	return
+}
+
+func showGTShallow(t *GT) string {
+	if t == nil {
+		return "nil"
+	}
+	str := func(p *string) string {
+		if p == nil {
+			return "nil"
+		}
+		return fmt.Sprintf("%q", *p)
+	}
+	sub := func(u *GT) string {
+		if u == nil {
+			return "nil"
+		}
+		return fmt.Sprintf("&GT{S:%s L:%d}", str(u.S), len(u.L))
+	}
+	return fmt.Sprintf("&GT{A:%s B:%s}", sub(t.A), sub(t.B))
+}
+
 // occursAfterRecycling: facts the engine may remember about values (here: what the occurs check has seen) must not be keyed by
 // addresses of objects it does not keep alive.  Phase 1 runs the occurs check over many short-lived ground terms, on states of
 // one lineage tree; then the terms die and the collector runs; phase 2 allocates fresh terms that contain the variable v and
@@ -171,6 +268,20 @@ func runC05(cfg *Config) *Report {
 		}
 		obs += fmt.Sprintf(" finalized-in-lineage-tree=%d", atomic.LoadInt64(&finTree))
 		runtime.KeepAlive(tree)
+		// probe 1c: sibling variables are distinct variables of distinct lineages, under both placeholder policies
+		for _, named := range []bool{false, true} {
+			if bad := lineageIdentity(named, k0%5); bad != "" {
+				rep.violate(i, "variable-identity-across-lineages", desc, fmt.Sprintf("VarCreator=%v, parent with %d variables: %s", named, k0%5, bad))
+			}
+		}
+		// probe 2c (first cases of a run only): reification after address recycling
+		if i < 3 && gcp != -1 {
+			wrong, gotN, first := rewriteAfterRecycling(400)
+			obs += fmt.Sprintf(" rewrite-after-recycling=%d/%d", wrong, gotN)
+			if wrong > 0 || gotN != 400 {
+				rep.violate(i, "later-value-inherits-facts-about-a-dead-one", desc, fmt.Sprintf("one Run of 400 branches, each building fresh ground terms and a fresh query value with a bound variable, answers streamed and dropped, GC at every branch boundary: %d answers, %d not fully resolved; %s", gotN, wrong, first))
+			}
+		}
 		// probe 2b (first cases of a run only: it is the expensive one): the occurs check after address recycling
 		if i < 2 && gcp != -1 {
 			acc, ran := occursAfterRecycling(6000, 20000)
